@@ -170,6 +170,7 @@ def simulate_scripts(spec, workdir, tier, dev, seed, watch="{}"):
         sc = {"id": "%s-%d-%s" % (tag, seed, os.path.basename(f)[:-5]), "family": spec.get("family", ""), "acts": acts}
         if spec.get("script_cfg"):
             sc["cfg"] = json.load(open(os.path.join(ROOT, "scripts", spec["script_cfg"])))
+        sc.update(spec.get("script_extra", {}))
         scripts.append(sc)
     viol = re.search(r"Invariant (\w+) is violated", txt)
     cex = None
@@ -294,7 +295,14 @@ ORACLE_MC = dict(module="MC_Oracle.tla", cfg="MC_Oracle.cfg", timeout=1500, quic
 ORACLE_SIM = dict(module="MC_Oracle.tla", cfg="MC_OracleSim.cfg", family="oracle", num=(60, 800), depth=240, timeout=3000,
                   quick={"MaxLen": "60"}, thorough={"MaxLen": "80"}, script_cfg="cfg_oracle.json")
 
+EVM_MC = dict(module="MC_Evm.tla", cfg="MC_Evm.cfg", timeout=1500, quick={"MaxLen": "5"}, thorough={"MaxLen": "6"})
+EVM_SIM = dict(module="MC_Evm.tla", cfg="MC_EvmSim.cfg", family="evm", num=(40, 500), depth=300, timeout=3000,
+               quick={"MaxLen": "90"}, thorough={"MaxLen": "120"}, script_cfg="cfg_evm.json", script_extra={"evm": "ethereum"})
+
 PROPS = {
+    "C08": dict(mc=[EVM_MC], sim=[EVM_SIM], static=["evm*.ndjson"],
+                watch=["C08:", "C07:CheckpointAgrees", "C13:WithdrawnBatchExecuted", "conf:ss", "conf:sigs", "conf:loss", "conf:lon"],
+                need={"EvmUpdateValset/ok": 3, "EvmUpdateValset/revert": 3, "EvmSubmitBatch/ok": 2, "EvmSubmitBatch/revert": 2, "EvmDeposit/ok": 5, "Claim/ok": 20}),
     "C18": dict(mc=[ORACLE_MC], sim=[ORACLE_SIM], static=["oracle*.ndjson"], trace=("TraceOracle.tla", "TraceOracle.cfg"),
                 watch=["C18:", "conf:or"],
                 need={"Price/ok": 10, "Price/err": 2, "Holders/ok": 5, "PricesChanged": 2, "HoldersChanged": 1, "AttWithSeveralVoters": 5}),
@@ -310,7 +318,7 @@ PROPS = {
     "C17": dict(mc=[VALSET_MC], enum=[REGISTRY_ENUM], sim=[VALSET_SIM], static=["valset*.ndjson"],
                 watch=["C17:", "conf:keys"],
                 need={"SetKeys/ok": 3, "SetKeys/err": 3}),
-    "C01": dict(mc=[ECON_MC], sim=[ECON_SIM, ECON2_SIM], static=["econ*.ndjson"],
+    "C01": dict(mc=[ECON_MC], sim=[ECON_SIM, ECON2_SIM, EVM_SIM], static=["econ*.ndjson"],
                 watch=["C01:", "conf:bal", "conf:sup"],
                 need={"ExtDeposit/ok": 3, "Claim/ok": 6, "End/ok": 3, "Send/ok": 5}),
     "C02": dict(mc=[ATTEST_MC], sim=[ATTEST_SIM, ECON_SIM], static=["attest*.ndjson"],
@@ -972,7 +980,57 @@ def check_c05(prop, tier, seed, replay_file=None):
     return rc
 
 
-EXTRA_PROPS = {"C14": check_c14, "C20": check_c20, "C06": check_c06, "C15": check_c15, "C05": check_c05}
+# ------------------------------------------------------------------------------------------- C07 sign bytes
+def check_c07(prop, tier, seed, replay_file=None):
+    t0 = time.time()
+    workdir = os.path.join(WORK, prop)
+    shutil.rmtree(workdir, ignore_errors=True)
+    os.makedirs(workdir)
+    vh, bt = build_harness()
+    outdir = os.path.join(workdir, "vectors")
+    os.makedirs(outdir)
+    rc, txt, dt, out = tlc("AbiLayout.tla", os.path.join(SPEC, "AbiLayout.cfg"), workdir, 600, env={"VERIF_OUT": outdir}, workers="2")
+    gen, dist = parse_counts(txt)
+    if "No error has been found" not in txt or not os.path.exists(os.path.join(outdir, "layouts.json")):
+        raise Infra("AbiLayout design check failed, see " + out)
+    log("[%s] AbiLayout.tla: %d shapes enumerated, layouts well formed (%.0fs)" % (prop, dist, dt))
+    layouts = os.path.join(outdir, "layouts.json") if not replay_file else replay_file
+    res_file = os.path.join(workdir, "result.json")
+    p, rt = run([vh, "abi", "-layouts", layouts, "-sigs", os.path.join(outdir, "sigs.json"), "-out", res_file], 900)
+    if p.returncode != 0:
+        sys.stdout.write(p.stdout.decode(errors="replace")[-2000:])
+        raise Infra("harness abi failed")
+    res = json.load(open(res_file))
+    bad_l = [r for r in res["layouts"] if not r["equal"] or "panic" in r]
+    bad_s = [r for r in res["sigs"] if r.get("hub") != r["want"] or r.get("contract") != r["want"] or "err" in r]
+    log("[%s] %d checkpoint digests and %d signature vectors compared with the real GetCheckpoint / NewEthereumSignature / ValidateEthereumSignature" % (prop, len(res["layouts"]), len(res["sigs"])))
+    if len(res["layouts"]) < 100 or len(res["sigs"]) < 81:
+        raise Infra("vacuous run")
+    rc = 0
+    if bad_l or bad_s:
+        rdir = os.path.join(ROOT, "evidence", "replay")
+        os.makedirs(rdir, exist_ok=True)
+        path = os.path.join(rdir, "%s-layouts.json" % prop)
+        vec = json.load(open(layouts))
+        json.dump([vec[r["i"]] for r in bad_l][:50], open(path, "w"))
+        for r in bad_l[:5]:
+            log("  %s shape %s: hub digest %s, ABI encoding per the specification %s %s" % (r["kind"], json.dumps(r["shape"]), r["hub"][:16], r["spec"][:16], r.get("panic", "")))
+        for r in bad_s[:5]:
+            log("  signature vector %s" % json.dumps(r))
+        log("VIOLATION property=%s replay=%s" % (prop, path))
+        rc = 1
+    kinds = collections.Counter(r["kind"] for r in res["layouts"])
+    coverage = dict(states=dist, transitions=gen, traces_validated_against_impl=len(res["layouts"]) + len(res["sigs"]),
+                    samples=[res["layouts"][0], res["sigs"][0]], shapes=dict(kinds), signature_vectors=len(res["sigs"]), exhaustive=True,
+                    rule="one model state per shape (members 0..4; transfers 0,1,2,3,100; logic-call token / fee lists 0..2 each, payload 0,1,31,32,33,64,65 bytes; gravity id 0,1,31,32 bytes; "
+                         "2-3 value variants drawn from 0, 1, 2^255, 2^256-1, 2^64-1, addresses with leading zero bytes); the slot vector is encoded independently of go-ethereum's abi package")
+    write_evidence(prop, tier, seed, coverage, time.time() - t0, len(bad_l) + len(bad_s),
+                   ["keccak256 and secp256k1 are go-ethereum's on both sides (treated as the contract's)", "nonces, timeouts and powers stay below 2^63 (the hub casts them through int64)",
+                    "end to end the real contract bytecode accepts exactly the quorum-signed digests in check C08"])
+    return rc
+
+
+EXTRA_PROPS = {"C14": check_c14, "C20": check_c20, "C06": check_c06, "C15": check_c15, "C05": check_c05, "C07": check_c07}
 
 
 def main(argv):
